@@ -481,6 +481,12 @@ def handleLine (s : CSt) (line : String) : CSt :=
   | ["XP", l] =>
     let bad := if l == "-" then [] else (l.splitOn ",").map (fun x => hexB ((x.splitOn ":").headD ""))
     { s with bad := bad }
+  | ["XJ", name, jr, same, peerRes] =>
+    -- a merge across codec configurations (usually refused): never a panic, the source log's entries are
+    -- left exactly as they were (C05) and the source is still mergeable by a peer of its own configuration
+    let s := s.spec "C12" "noPanic" (jr != "PANIC") s!"cross-codec join {name}"
+    let s := s.spec "C05" "sourceUntouched" (same == "true") s!"cross-codec join {name} ({jr}) changed the source log's entries"
+    s.spec "C05" "sourceStillMergeable" (peerRes == "ok") s!"after cross-codec join {name}: a peer's join of the source: {peerRes}"
   | "LD" :: tag :: roots :: res => handleLD s tag roots res
   | ["LM2", res] => s.spec "C12" "noPanic" (res != "PANIC") "poisoned manifest"
   | ["Z", idx, res] => s.spec "C08" "crossProcessSameCid" (res == "same") s!"case {idx} {res}"
